@@ -118,6 +118,7 @@ type point struct {
 type Options struct {
 	Horizon   int      // max scheduler steps (0 = 20000)
 	Bg        []string // call-site substrings marking background tasks/timers (fire only when nothing else can)
+	BgTimers  []string // call-site substrings marking background timers only
 	Invariant func() string
 	Labels    bool // record human-readable labels of the choice points (replay output)
 }
@@ -138,6 +139,7 @@ type sched struct {
 	nextTm   int
 	aborting bool
 	names    map[uintptr]string
+	xprocs   map[int]*XCmd
 }
 
 // G is the running execution (nil = pass-through mode).
@@ -154,11 +156,14 @@ func site() string {
 	for {
 		fr, more := frames.Next()
 		if !strings.Contains(fr.File, "/vsched/") && fr.File != "" {
-			f := fr.File
-			if i := strings.LastIndex(f, "__"); i >= 0 {
-				f = f[i+2:]
+			// rewritten files are stored as <dir>/repo__internal__pkg__file.go: report "pkg/file.go:line"
+			f := strings.ReplaceAll(fr.File, "__", "/")
+			if i := strings.LastIndex(f, "/"); i >= 0 {
+				if j := strings.LastIndex(f[:i], "/"); j >= 0 {
+					f = f[j+1:]
+				}
 			}
-			return f[strings.LastIndex(f, "/")+1:] + ":" + strconv.Itoa(fr.Line)
+			return f + ":" + strconv.Itoa(fr.Line)
 		}
 		if !more {
 			break
